@@ -67,6 +67,38 @@ def playback_bytes(out):
 
 _memo = {}
 
+# Units without a Kani pair: a short list of boundary inputs derived from the *clause* that failed (not from
+# the code) is executed against the real crates; only an input that reproduces is reported.
+PROBES = [
+    (re.compile(r"^rpid::.*(label-boundary|web|android)"), "rpid-web",
+     ["https://evilexample.com|example.com|0", "https://evillocalhost|localhost|1", "https://aexample.co.uk|example.co.uk|0",
+      "https://example.com.evil.org|example.com|0", "https://xexample.com:8443/path|example.com|0"]),
+    (re.compile(r"^rpid::.*(registrable|accepted|valid|safety|ascii-form|ascii-input)"), "rpid-web",
+     ["https://foo.xn--55qx5d.cn|xn--55qx5d.cn|0", "https://a.co.uk|co.uk|0", "https://com|-|0", "https://a.xn--p1ai|xn--p1ai|0",
+      "http://www.example.com|example.com|0", "https://localhost|-|0", "http://localhost|localhost|0"]),
+    (re.compile(r"^rpid::.*(effective-id|localhost)"), "rpid-web",
+     ["https://www.example.com|example.com|0", "https://localhost|-|0", "https://localhost|localhost|0", "https://sub.localhost|localhost|1"]),
+    (re.compile(r"^hid::.*(safety|table-wf|rest-bound|init-rest-bound|wf-after|err-keeps)"), "hid-packets",
+     ["01020304900005", "0102030490", "01020304", "0102030490003a" + "aa" * 70 + ",0102030400" + "bb" * 59,
+      "0102030490004a" + "aa" * 57 + ",0102030400bb", "0102030490004a" + "aa" * 57 + ",0102030400" + "bb" * 80 + ",0102030401cc",
+      "0102030490ffff" + "aa" * 57 + "," + ",".join("01020304%02x" % k + "bb" * 59 for k in range(0, 130))]),
+]
+
+
+def probe(o):
+    for rx, entry, args in PROBES:
+        if rx.search(o["id"]):
+            tried = []
+            for a in args:
+                rep = run_replay(entry, a)
+                tried.append({"arg": a[:200], "result": rep})
+                if rep.get("violates"):
+                    return {"input": a, "entry": entry, "reproduced": True, "replay_result": rep,
+                            "source": "boundary input derived from the failed clause (the verifier gives no counterexample)",
+                            "probes_tried": len(tried)}
+            return {"input": None, "reproduced": False, "probes_tried": tried}
+    return None
+
 
 def find_input(pid, o):
     fam = None
@@ -75,7 +107,7 @@ def find_input(pid, o):
             fam = f
             break
     if fam is None:
-        return None
+        return probe(o)
     if fam not in _memo:
         _memo[fam] = _find_input_inner(fam)
     return _memo[fam]
